@@ -14,6 +14,7 @@ import (
 	"path/filepath"
 	"reflect"
 	"strconv"
+	"strings"
 	"sync"
 	"time"
 
@@ -97,6 +98,26 @@ func cmdGrpc(args []string) {
 		corpus = append(corpus, &R{Op: "grpc", Kids: []*R{{Op: "new", S: []string{"coded"}}}, I: []int64{code}},
 			&R{Op: "wrap", Kids: []*R{{Op: "grpc", Kids: []*R{{Op: "stdnew", S: []string{"coded"}}}, I: []int64{code}}}, S: []string{"ctx"}})
 	}
+	// a code attached inside one branch of a multi-cause error is not a code of the error
+	coded := func(c int64, msg string) *R {
+		return &R{Op: "grpc", Kids: []*R{{Op: "new", S: []string{msg}}}, I: []int64{c}}
+	}
+	for _, op := range []string{"join", "stdjoin"} {
+		corpus = append(corpus,
+			&R{Op: op, Kids: []*R{coded(5, "nf"), {Op: "new", S: []string{"other"}}}},
+			&R{Op: "wrap", Kids: []*R{{Op: op, Kids: []*R{{Op: "stdnew", S: []string{"plain"}}, coded(7, "denied")}}}, S: []string{"ctx"}},
+			&R{Op: "grpc", Kids: []*R{{Op: op, Kids: []*R{coded(5, "nf"), coded(9, "fp")}}}, I: []int64{14}})
+	}
+	// long messages of multi-byte runes around every length a transport limit could cut at
+	for _, unit := range []string{"\u00e9", "\u65e5", "\U0001F600"} {
+		for pre := 0; pre < 4; pre++ {
+			for _, total := range []int{70, 130, 260, 1100} {
+				msg := strings.Repeat("x", pre) + strings.Repeat(unit, total/len(unit))
+				corpus = append(corpus, &R{Op: "grpc", Kids: []*R{{Op: "stdnew", S: []string{msg}}}, I: []int64{8}},
+					&R{Op: "wrap", Kids: []*R{{Op: "new", S: []string{msg}}}, S: []string{"ctx"}})
+			}
+		}
+	}
 	for i := 0; i < *n; i++ {
 		corpus = append(corpus, g.Tree(1+g.r.intn(5)))
 	}
@@ -168,6 +189,10 @@ func cmdGrpc(args []string) {
 		}
 		// the status code visible on the wire: the attached code, Unknown otherwise
 		wantCode := extgrpc.GetGrpcCode(e)
+		if sc, known := specGrpcCode(r); known && sc != wantCode {
+			fail(fmt.Sprintf("GetGrpcCode of the handler's error is %v; the code attached on its cause chain is %v (a code inside a branch of a multi-cause error, or behind a barrier, is not a code of the error)", wantCode, sc), "")
+			continue
+		}
 		wireCode := wantCode
 		if wireCode == codes.OK {
 			wireCode = codes.Unknown // an error cannot travel under the OK status
@@ -217,4 +242,34 @@ func cmdGrpc(args []string) {
 	mb, _ := json.MarshalIndent(meta, "", " ")
 	os.WriteFile(filepath.Join(*out, "meta.json"), mb, 0o644)
 	fmt.Printf("C20: %d errors through the interceptors, %d failures\n", evals, len(fails))
+}
+
+// specGrpcCode: the code of the outermost WrapWithGrpcCode layer on the single-cause chain of
+// the recipe (Unknown when there is none), computed from the recipe alone. known = false for
+// recipes whose chain this function does not follow (transfers, format arguments).
+func specGrpcCode(r *R) (codes.Code, bool) {
+	for {
+		if _, isNil := specText(r); isNil {
+			return codes.OK, true
+		}
+		switch r.Op {
+		case "grpc":
+			return codes.Code(r.I[0]), true
+		case "wrap", "withmessage", "hint", "detail", "domain", "withstack", "assert", "issuelink", "telemetry", "tags",
+			"mark", "secondary", "http", "safedetails", "wrapf", "withmessagef", "pkgmsg", "pkgstack", "patherror", "linkerror",
+			"syscallerror", "operror", "uwrap":
+			r = r.Kids[0]
+		case "combine":
+			if _, n := specText(r.Kids[0]); n {
+				r = r.Kids[1]
+			} else {
+				r = r.Kids[0]
+			}
+		case "new", "stdnew", "pkgnew", "sentinel", "errno", "foreignerrno", "unimpl", "testerror", "uleaf",
+			"join", "stdjoin", "handled", "handledmsg", "handledindomain", "handledindomainmsg", "handleassert":
+			return codes.Unknown, true
+		default:
+			return codes.Unknown, false
+		}
+	}
 }
